@@ -85,7 +85,9 @@ func singlesAndPairs(offers, pairOf []string) [][]int {
 func nearPhase(r *core.Run, quick bool, bounds map[string]any) {
 	types := []string{"text", "tex", "textx", "xtext"}
 	subs := []string{"html", "htm", "htmlx", "xhtml"}
-	offerParams := []string{"", ";level=1", ";leve=1", ";levelx=1", ";xlevel=1", ";level=10", ";level=01", ";level=2", ";level=1;b=2"}
+	// ";level=1;level=1": an offer that REPEATS a parameter (round 10: a matcher counting hits instead of checking each
+	// range parameter accepts it for the range ;level=1;b=2 and refuses it for ;level=1)
+	offerParams := []string{"", ";level=1", ";leve=1", ";levelx=1", ";xlevel=1", ";level=10", ";level=01", ";level=2", ";level=1;b=2", ";level=1;level=1"}
 	rangeParams := append(append([]string(nil), offerParams...), `;level="1"`, `;level="10"`)
 	var mimes, offers []string
 	for _, t := range types {
@@ -100,7 +102,7 @@ func nearPhase(r *core.Run, quick bool, bounds map[string]any) {
 	}
 	// the offers one step away from the probe: the ordered pairs come from these
 	probeOffers := []string{"text/html;level=1", "text/html", "text/htm;level=1", "text/htmlx;level=1", "text/xhtml;level=1", "tex/html;level=1", "textx/html;level=1",
-		"xtext/html;level=1", "text/html;leve=1", "text/html;levelx=1", "text/html;level=10", "text/html;level=2", "text/html;level=1;b=2"}
+		"xtext/html;level=1", "text/html;leve=1", "text/html;levelx=1", "text/html;level=10", "text/html;level=2", "text/html;level=1;b=2", "text/html;level=1;level=1"}
 	fam := mkFamily("Accepts", mAccepts, "Accept", true, offers, singlesAndPairs(offers, probeOffers))
 	fam.oname, fam.literal = "Accepts(near-miss names)", true
 
